@@ -42,12 +42,26 @@ def _err_variant_of_type(ty, name=''):
     return 'Result::Err'
 
 
-def reach_v(body, starts, env0=None, stop=(), forced=None, hits=None):
+# calls that re-encode a known branch condition as another value (bool <-> Option <-> Result):
+#   b.then_some(v) / b.then(f): true -> Some, false -> None;  o.is_some() / is_none(), r.is_ok() / is_err();  r.ok() / r.err()
+V_RECODE = [
+    (re.compile(r'bool>::(then_some|then)(::<.*>)?$'), {True: 'Option::Some', False: 'Option::None'}),
+    (re.compile(r'Option::<.*>::is_some$'), {'Option::Some': True, 'Option::None': False}),
+    (re.compile(r'Option::<.*>::is_none$'), {'Option::Some': False, 'Option::None': True}),
+    (re.compile(r'Result::<.*>::is_ok$'), {'Result::Ok': True, 'Result::Err': False}),
+    (re.compile(r'Result::<.*>::is_err$'), {'Result::Ok': False, 'Result::Err': True}),
+    (re.compile(r'Result::<.*>::ok$'), {'Result::Ok': 'Option::Some', 'Result::Err': 'Option::None'}),
+    (re.compile(r'Result::<.*>::err$'), {'Result::Ok': 'Option::None', 'Result::Err': 'Option::Some'}),
+]
+
+
+def reach_v(body, starts, env0=None, stop=(), forced=None, hits=None, fvals=None):
     """blocks reachable from `starts` (list of bb) when the locals in env0 hold the given values
     ({local: True/False | 'Result::Err' | ...}); switches on a known bool / a known discriminant follow
     the matching target only.  Blocks in `stop` are neither entered nor returned (the ones a feasible
     path arrives at are added to `hits`).  forced = {switch bb: target}: outcome of tests decided by an
-    assumption of the caller ("the kind is Binary")."""
+    assumption of the caller ("the kind is Binary"); fvals = {(bb, local): value}: value a local gets when
+    it is defined in that block under the same assumption (result of `kind == Binary`)."""
     start_env = frozenset((env0 or {}).items())
     mb = T._mut_borrowed(body)            # a value that can be written through a `&mut` is never assumed known
     seen = set(); out = set(); work = [(s, start_env) for s in starts if s not in stop]
@@ -76,6 +90,7 @@ def reach_v(body, starts, env0=None, stop=(), forced=None, hits=None):
             elif k == 'discr' and not rv['pl']['p']:
                 v0 = e.get(rv['pl']['l'])
                 if isinstance(v0, str): val = ('discr', V_DISCR[v0])
+            if fvals and (bi, dl) in fvals: val = fvals[(bi, dl)]
             if val is None or dl in mb: e.pop(dl, None)
             else: e[dl] = val
         t = blk['term']; succs = body.succ(bi)
@@ -94,6 +109,11 @@ def reach_v(body, starts, env0=None, stop=(), forced=None, hits=None):
                     for rx, m in V_ADAPT:
                         if rx.search(T.strip_generics_tail(nm)) or rx.search(nm):
                             val = m.get(v0); break
+                if val is None and v0 is not None and not isinstance(v0, tuple):
+                    for rx, m in V_RECODE:
+                        if rx.search(T.strip_generics_tail(nm)) or rx.search(nm):
+                            val = m.get(v0); break
+                if fvals and (bi, dl) in fvals: val = fvals[(bi, dl)]
             if val is None or dl in mb: e.pop(dl, None)
             else: e[dl] = val
         elif t['k'] == 'switch' and t['d']['k'] != 'const' and not t['d']['pl']['p']:
@@ -244,71 +264,80 @@ def emptiness_tests(body, recv_ok):
     return out
 
 
-def enum_tests(ctx, body, adt_suffix, src_need=None):
-    """ENUM-TEST idioms on a value of enum `adt_suffix`.  Each test is (switch_bb, {variant name: target bb}):
-       x == K / x != K        PartialEq::eq / ne against a constant variant, then a bool switch
-       matches!(x, K) / match x { K => .. }    discriminant switch on x
-       raw == K as i32        integer comparison of the raw prost field with the variant's discriminant
-    src_need(slice) restricts x to values with the required origin."""
-    adt = ctx.F.adt(adt_suffix)
-    if adt is None: return None
-    names = {v['discr']: v['name'] for v in adt['variants']}
-    allv = list(names.values())
-    ty_re = re.compile(r"^&?('\w+ )?(mut )?([\w:]*::)?" + re.escape(adt_suffix) + r"$")
-    tests = []
+class EnumProbes:
+    """every inspection of one enum value in a body (ENUM-TEST idioms), usable as an assumption "the value is V":
+       ('switch', bb, {V: target})         discriminant switch (matches! / match / if let)
+       ('value',  bb, local, {V: bool})    x == K / x != K (PartialEq call) or raw i32 == discriminant: the bool it yields,
+                                           whatever consumes it later (if, &&, then_some, filter closure result, ..)
+    reach(V, ..) is the variant-tracking reachability under that assumption."""
+    def __init__(self, ctx, body, adt_suffix, src_need=None, blocks=None):
+        self.body = body; self.probes = []; self.variants = []
+        adt = ctx.F.adt(adt_suffix); self.lost = adt is None
+        if adt is None: return
+        names = {v['discr']: v['name'] for v in adt['variants']}
+        self.variants = allv = [v['name'] for v in adt['variants']]
+        short = adt_suffix.split('::')[-1]
+        ty_re = re.compile(r"^&?('\w+ )?(mut )?([\w:]*::)?" + re.escape(adt_suffix) + r"$")
+        inb = lambda bb: blocks is None or bb in blocks
+        for c in body.calls:
+            if inb(c.bb) and c.item in ('eq', 'ne') and 'PartialEq' in (c.trait or '') and ty_re.match((c.self_ty or '').strip()) and not c.dst['p']:
+                vs = [enum_variant_of_operand(ctx, body, a) for a in c.args]
+                hit = [v for v in vs if v and v.split('::')[-1] in allv and short in v]
+                if not hit: continue
+                others = [a for a, v in zip(c.args, vs) if not (v and v.split('::')[-1] in allv)]
+                if src_need is not None and (not others or not src_need(ctx.S.slice_operand(body, others[0]))): continue
+                K = hit[0].split('::')[-1]
+                self.probes.append(('value', c.bb, c.dst['l'], {n: ((n == K) == (c.item == 'eq')) for n in allv}))
+        for bi in sorted(body.live):
+            t = body.blocks[bi]['term']
+            if not inb(bi) or t['k'] != 'switch' or t['d']['k'] == 'const' or t['d']['pl']['p']: continue
+            d = single_def(body, t['d']['pl']['l'])
+            if not d or d[0] != 'stmt' or d[2]['rv']['k'] != 'discr': continue
+            pl = d[2]['rv']['pl']
+            if any(p != '*' for p in pl['p']) or not ty_re.match(body.locals[pl['l']].strip()): continue
+            if src_need is not None and not src_need(ctx.S.backslice(body, [pl['l']])): continue
+            m = {v: tg for v, tg in t['ts']}
+            self.probes.append(('switch', bi, {n: m.get(dv, t['else']) for dv, n in names.items()}))
+        for bi, st in body.stmts():
+            rv = st['rv']
+            if inb(bi) and rv['k'] == 'bin' and rv['op'] in ('Eq', 'Ne') and rv.get('ty') == 'i32' and not st['dst']['p']:
+                cs = [const_operand(body, o) for o in rv['ops']]
+                for i in (0, 1):
+                    if cs[i] is None or cs[1 - i] is not None: continue
+                    mm = re.match(r'^(?:const )?(-?\d+)_i32$', cs[i]['v'].strip())
+                    if not mm or int(mm.group(1)) not in names: continue
+                    if src_need is not None and not src_need(ctx.S.slice_operand(body, rv['ops'][1 - i])): continue
+                    K = names[int(mm.group(1))]
+                    self.probes.append(('value', bi, st['dst']['l'], {n: ((n == K) == (rv['op'] == 'Eq')) for n in allv}))
 
-    def bool_tests(local, variant, eq):
-        for sb, neg in T.bool_flow(body, local):
-            t, f = T.switch_sides(body, sb, neg)
-            hit, miss = (t, f) if eq else (f, t)
-            tests.append((sb, {n: (hit if n == variant else miss) for n in allv}))
+    def __bool__(self): return bool(self.probes)
 
-    for c in body.calls:
-        if c.item in ('eq', 'ne') and 'PartialEq' in (c.trait or '') and ty_re.match((c.self_ty or '').strip()):
-            vs = [enum_variant_of_operand(ctx, body, a) for a in c.args]
-            hit = [v for v in vs if v and v.split('::')[-1] in allv and adt_suffix.split('::')[-1] in v]
-            if not hit: continue
-            others = [a for a, v in zip(c.args, vs) if not (v and v.split('::')[-1] in allv)]
-            if src_need is not None and (not others or not src_need(ctx.S.slice_operand(body, others[0]))): continue
-            bool_tests(c.dst['l'], hit[0].split('::')[-1], c.item == 'eq')
-    for bi in sorted(body.live):
-        t = body.blocks[bi]['term']
-        if t['k'] != 'switch' or t['d']['k'] == 'const' or t['d']['pl']['p']: continue
-        d = single_def(body, t['d']['pl']['l'])
-        if not d or d[0] != 'stmt' or d[2]['rv']['k'] != 'discr': continue
-        pl = d[2]['rv']['pl']
-        if any(p != '*' for p in pl['p']) or not ty_re.match(body.locals[pl['l']].strip()): continue
-        if src_need is not None and not src_need(ctx.S.backslice(body, [pl['l']])): continue
-        m = {v: tg for v, tg in t['ts']}
-        tests.append((bi, {n: m.get(dv, t['else']) for dv, n in names.items()}))
-    for bi, st in body.stmts():
-        rv = st['rv']
-        if rv['k'] == 'bin' and rv['op'] in ('Eq', 'Ne') and rv.get('ty') == 'i32' and not st['dst']['p']:
-            cs = [const_operand(body, o) for o in rv['ops']]
-            for i in (0, 1):
-                if cs[i] is None or cs[1 - i] is not None: continue
-                mm = re.match(r'^(?:const )?(-?\d+)_i32$', cs[i]['v'].strip())
-                if not mm or int(mm.group(1)) not in names: continue
-                if src_need is not None and not src_need(ctx.S.slice_operand(body, rv['ops'][1 - i])): continue
-                bool_tests(st['dst']['l'], names[int(mm.group(1))], rv['op'] == 'Eq')
-    return tests
+    def bbs(self): return {p[1] for p in self.probes}
+
+    def site(self): return self.body.site(self.probes[0][1]) if self.probes else self.body.site()
+
+    def reach(self, V, starts, env0=None, stop=(), hits=None):
+        forced = {p[1]: p[2][V] for p in self.probes if p[0] == 'switch'}
+        fvals = {(p[1], p[2]): p[3][V] for p in self.probes if p[0] == 'value'}
+        return reach_v(self.body, starts, env0, stop, forced, hits, fvals)
 
 
 def enum_guard(ctx, rule, body, adt_suffix, allowed, what, src_need=None):
-    """T-GUARD: the Ok-exits are reachable exactly for the variants in `allowed` of a test on the enum"""
-    tests = enum_tests(ctx, body, adt_suffix, src_need)
-    if tests is None:
+    """T-GUARD, stated per variant: assume the enum value is V at every place the body inspects it; from the
+    entry an Ok-exit is reachable iff V is allowed, and for the others an Err-exit is"""
+    P = EnumProbes(ctx, body, adt_suffix, src_need)
+    if P.lost:
         ctx.lost(rule, 'ADT ' + adt_suffix); return None
-    seen = []
-    for sb, tab in tests:
-        good = sorted({tg for n, tg in tab.items() if n in allowed}); bad = sorted({tg for n, tg in tab.items() if n not in allowed})
-        g = Guard2(body, sb, good, bad); ctx.counters['cfg_paths'] += 1
-        if not (set(good) & set(bad)) and g.holds():
-            ctx.ok(rule, 'T-GUARD', body.site(sb), guard=what, shape=g.describe()); return g
-        seen.append(g.describe())
-    if not tests: ctx.bad(rule, 'T-GUARD', body.name, 'no test `%s` found' % what, body.site())
-    else: ctx.bad(rule, 'T-GUARD', body.name, 'test `%s` does not guard the Ok-exits with the required polarity' % what, body.site(tests[0][0]), seen='; '.join(seen)[:300])
-    return None
+    if not P:
+        ctx.bad(rule, 'T-GUARD', body.name, 'no test `%s` found' % what, body.site()); return None
+    oks = body.strict_ok_exits(); errs = body.err_exits(); wrong = []
+    for V in P.variants:
+        ctx.counters['cfg_paths'] += 1
+        r = P.reach(V, [0])
+        if V in allowed and not (r & oks): wrong.append('%s never succeeds' % V)
+        if V not in allowed and ((r & oks) or not (r & errs)): wrong.append('%s can reach an Ok-exit' % V)
+    ctx.check(not wrong, rule, 'T-GUARD', body.name, 'test `%s` does not guard the Ok-exits: %s' % (what, '; '.join(wrong)), P.site(), guard=what)
+    return P if not wrong else None
 
 
 def local_guard(ctx, rule, body, cands, what):
@@ -390,8 +419,12 @@ def negligible_tests(ctx, body, blocks):
     """NEGLIGIBLE idioms: comparisons that decide whether an f64 is (numerically) zero.
        |x| <  EPSILON, |x| <= EPSILON, EPSILON > |x|, ... (any order / strictness; f64::EPSILON only)
        x == 0.0, x != 0.0
-    Returns (bb, stmt, operand x, small_when_true)."""
+       x.is_nan()   (skip tests only: a NaN coefficient is "not > EPSILON" as well; never accepted as the zero filter)
+    Returns (bb, stmt-like {'dst': bool place}, operand x, small_when_true, kind in 'eps' | 'zero' | 'nan')."""
     out = []
+    for c in body.calls:
+        if c.bb in blocks and c.item == 'is_nan' and re.search(r'f64>::is_nan$', c.name) and not c.dst['p']:
+            out.append((c.bb, {'dst': c.dst}, c.args[0], True, 'nan'))
     for bi, st in float_cmp_sites(body):
         if bi not in blocks or st['dst']['p']: continue
         rv = st['rv']; ops = rv['ops']; op = rv['op']
@@ -401,9 +434,9 @@ def negligible_tests(ctx, body, blocks):
         if ci[0] == 0: op = FLIP[op]                      # now: x <op> K
         if 'EPSILON' in k['v'] and op in ('Lt', 'Le', 'Gt', 'Ge'):
             if not ctx.S.slice_operand(body, x).has_call(r'f64>::abs$'): continue
-            out.append((bi, st, x, op in ('Lt', 'Le')))
+            out.append((bi, st, x, op in ('Lt', 'Le'), 'eps'))
         elif T.f64_const(k['v']) == 0.0 and op in ('Eq', 'Ne'):
-            out.append((bi, st, x, op == 'Eq'))
+            out.append((bi, st, x, op == 'Eq', 'zero'))
     return out
 
 
@@ -530,9 +563,10 @@ def export_rules(ctx, name, keyty, qubo):
     # ---- zero filter after accumulation
     tests = negligible_tests(ctx, body, blocks)
     post = []; pre = []
-    for bi, st, x, small_true in tests:
-        if map_rooted(x): post.append((bi, st, small_true))
-        elif from_item(sl(x)): pre.append((bi, st, small_true))
+    for bi, st, x, small_true, kind in tests:
+        if map_rooted(x):
+            if kind != 'nan': post.append((bi, st, small_true))
+        elif from_item(sl(x)): pre.append((bi, st, small_true, kind))
     ctx.check(bool(post), R + '/zero/filter-present', 'T-BRANCHFX', body.name, 'no |value| < EPSILON test on the accumulated entry', body.site(nextc.bb))
     # REMOVE idioms: map.remove(&key) with the term's key | occupied_entry.remove() / remove_entry() of the entry of the term's key
     def removals(region):
@@ -565,14 +599,18 @@ def export_rules(ctx, name, keyty, qubo):
     if adds:
         ctx.check(not bada, R + '/zero/after-every-accumulation', 'T-LOOPMUST', body.name,
                   'a sum (%s) can stay in the map without the |value| < EPSILON test' % (bada[0][1] if bada else ''), body.site((bada or adds)[0][0]), sums=len(adds))
-    # skip tests: the coefficient itself is negligible and that side never reaches the map
-    skips = []         # (bb of the switch, small target)
+    # tests of the coefficient itself: on their "small" side the term is known to be negligible (or NaN), whatever the
+    # code then does with it (skip it, `continue`, fall into an `|| c.is_nan()` alternative, ..)
+    skips = []         # (bb of the switch, small target)   magnitude tests only: their other side proves |c| > EPSILON
+    tiny = set()       # small targets of all of them
     wbbs = {c.bb for c in W}
-    for bi, st, small_true in pre:
+    for bi, st, small_true, kind in pre:
         for sb, neg in T.bool_flow(body, st['dst']['l']):
             t, f = T.switch_sides(body, sb, neg)
             small = t if small_true else f
-            if small is not None and not (body.reach([small], stop={header}) & wbbs): skips.append((sb, small))
+            if small is None: continue
+            tiny.add(small)
+            if kind != 'nan': skips.append((sb, small))
     # no zero can be stored: a fresh entry is either tested afterwards or known to be non-negligible
     badz = []
     for c, v in ins:
@@ -585,7 +623,7 @@ def export_rules(ctx, name, keyty, qubo):
     if ins:
         ctx.check(not badz, R + '/zero/no-zero-inserted', 'T-BRANCHFX', body.name, 'a new entry is stored without any |.| vs EPSILON test', body.site((badz[0] if badz else ins[0][0]).bb))
     # a term is accounted for when it reaches a write of the map under its key (incl. the removal of a cancelled sum) or is negligible
-    via = set(wbbs) | rm_bbs | {small for sb, small in skips}
+    via = set(wbbs) | rm_bbs | tiny
     if qubo:
         # constant term: empty id list => added to the offset, which is returned unchanged
         def on_ids(c): return from_item(sl(c.args[0]))
@@ -662,7 +700,9 @@ def binary_ids_rules(ctx, R):
     if bids is None: return
     S = ctx.S
     ret = S.backslice(bids, [0])
-    # COLLECT idioms (normal form): set.insert(id) | vec.push(id) inside a loop over decision_variables
+    # COLLECT idioms (normal form): set.insert(id) | vec.push(id) inside a loop over decision_variables — whatever the
+    # chain was (filter+map, filter_map with match / then_some, for + if): per kind V, assume every test of the item's
+    # kind yields V and ask whether the item's id can reach the collection
     ok = False; detail = 'no loop over decision_variables that collects ids'
     for lo in T.for_loops(bids):
         nextc, header, some_bb, none_bb, blocks = lo
@@ -670,15 +710,15 @@ def binary_ids_rules(ctx, R):
         sinks = [c for c in bids.calls if c.bb in blocks and c.item in ('insert', 'push') and c in ret.call_objs]
         sinks = [c for c in sinks if S.slice_operand(bids, c.args[-1]).has_field('v1::DecisionVariable', 'id') and nextc in S.slice_operand(bids, c.args[-1]).call_objs]
         if not sinks: detail = 'the loop over decision_variables does not collect the variable ids'; continue
-        tests = enum_tests(ctx, bids, 'v1::decision_variable::Kind', src_need=lambda s: nextc in s.call_objs) or []
-        tests = [(sb, tab) for sb, tab in tests if sb in blocks]
+        P = EnumProbes(ctx, bids, 'v1::decision_variable::Kind', src_need=lambda s: nextc in s.call_objs, blocks=blocks)
+        if not P: detail = 'no test of kind() guards the collected ids'; continue
         sbbs = {c.bb for c in sinks}
-        for sb, tab in tests:
-            reaching = sorted(n for n, tg in tab.items() if bids.reach([tg], stop={header}) & sbbs)
-            detail = 'ids of kinds %s are collected' % reaching
+        reaching = []
+        for V in P.variants:
             ctx.counters['cfg_paths'] += 1
-            if reaching == ['Binary'] and must_pass_v(bids, some_bb, sbbs, {sb}): ok = True
-        if not tests: detail = 'no test of kind() guards the collected ids'
+            if P.reach(V, [some_bb], stop={header}) & sbbs: reaching.append(V)
+        detail = 'ids of kinds %s are collected' % sorted(reaching)
+        if reaching == ['Binary']: ok = True
     ctx.check(ok, R + '/binary_ids/filter-binary', 'T-BRANCHFX', bids.name, 'binary_ids does not keep exactly the Binary variables (%s)' % detail, bids.site())
 
 
@@ -882,30 +922,69 @@ class PairShape:
         return ok_lens, err_lens, pairs
 
 
-def pair_rules(ctx):
-    R = 'C11.pair'
-    b = ctx.method(R + '/anchor', 'sorted_ids::BinaryIdPair', 'try_from', trait='TryFrom', targs=['std::vec::Vec<u64>'])
-    if b is None: return
+# CANONICAL-SOURCE table: what the type of the conversion's argument already guarantees about the id sequence
+SRC = [('std::vec::Vec<u64>', 'Vec', False, False),            # nothing
+       ('sorted_ids::SortedIds', 'SortedIds', True, False),    # sorted by construction (verified by sorted_ids_invariant), may repeat ids
+       ('sorted_ids::BinaryIds', 'BinaryIds', True, True)]     # a BTreeSet: strictly increasing
+CONV_RE = r'BinaryIdPair as std::convert::TryFrom<(std::vec::Vec<u64>|sorted_ids::SortedIds|sorted_ids::BinaryIds)>>::try_from'
+
+
+def sorted_ids_invariant(ctx):
+    """SortedIds is sorted by construction: every body that builds a SortedIds value (or takes `&mut` of / assigns its
+    field) is a derive, sorts the vector, or builds it from an empty Vec.  Returns a list of offending bodies."""
+    bad = []
+    for fb in ctx.F.bodies.values():
+        touches = False
+        for bi, st in fb.stmts():
+            rv = st['rv']
+            if rv['k'] == 'agg' and rv['adt'].endswith('sorted_ids::SortedIds'):
+                o = rv['ops'][0] if rv['ops'] else None
+                fresh = o is not None and o['k'] in ('copy', 'move') and any(re.search(r'Vec::<u64>::new$', c.name) for c in ctx.S.slice_operand(fb, o).call_objs) and \
+                    not ctx.S.slice_operand(fb, o).params
+                if not fresh: touches = True
+            if ('sorted_ids::SortedIds', '0') in fields_of_place(st['dst']) or (rv['k'] in ('ref', 'rawptr') and rv.get('mut') and ('sorted_ids::SortedIds', '0') in fields_of_place(rv['pl'])):
+                touches = True
+        if not touches or is_derive_body(fb): continue
+        oks = {bi for bi in fb.return_blocks()}
+        sorts = [c for c in fb.calls if c.item in LEN_KEEPING[:7]]
+        if not any(all(fb.dominates(c.bb, e) for e in oks) for c in sorts): bad.append(fb.name)
+    return bad
+
+
+def canonical_pair_clauses(ctx, b, src_sorted, src_dedup):
+    """the clauses that make `b` (a conversion ids -> BinaryIdPair) canonical; list of (leaf, template, verdict, detail, site)
+    with verdict in ok / bad / undecided"""
+    out = []
+    oks = b.strict_ok_exits()
+    dominating = lambda pred: any(all(b.dominates(c.bb, e) for e in oks) for c in b.calls if pred(c))
     # CANONICALISE idioms: ids.sort*() and ids.dedup*()  |  collecting the ids into a BTreeSet (sorted and duplicate-free at once)
+    #                      |  the argument's type guarantees it (CANONICAL-SOURCE table)
     into_set = lambda c: (c.item in ('collect', 'from_iter') and 'BTreeSet<u64>' in c.name) or (c.item == 'from' and 'BTreeSet<u64> as' in c.name)
-    mustcall(ctx, R + '/sorted', b, lambda c: c.item in LEN_KEEPING[:7] or into_set(c), 'ids.sort()', propagate=False)
-    mustcall(ctx, R + '/dedup', b, lambda c: c.item in ('dedup', 'dedup_by', 'dedup_by_key') or into_set(c), 'ids.dedup()', propagate=False)
+    by_type = False
+    if src_sorted and not dominating(lambda c: c.item in LEN_KEEPING[:7] or into_set(c)):
+        viol = sorted_ids_invariant(ctx) if not src_dedup else []
+        by_type = not viol
+        out.append(('sorted', 'T-MUSTCALL', 'ok' if by_type else 'bad', 'relies on SortedIds being sorted, but %s build it without sorting' % viol[:3], b.site()))
+    else:
+        okk = dominating(lambda c: c.item in LEN_KEEPING[:7] or into_set(c))
+        out.append(('sorted', 'T-MUSTCALL', 'ok' if okk else 'bad', 'no call `ids.sort()` dominating every Ok-exit', b.site()))
+    okk = src_dedup or dominating(lambda c: c.item in ('dedup', 'dedup_by', 'dedup_by_key') or into_set(c))
+    out.append(('dedup', 'T-MUSTCALL', 'ok' if okk else 'bad', 'no call `ids.dedup()` dominating every Ok-exit', b.site()))
     sh = PairShape(ctx, b)
     ok_lens, err_lens, pairs = sh.walk()
     ctx.counters['cfg_paths'] += 1
     # the pair is made of elements of ids
-    ctx.check(bool(pairs) and all(all(1 in ctx.S.slice_operand(b, o).params for o in st['rv']['ops']) for bi, st, ls, fs in pairs), R + '/from-ids', 'T-CARRY', b.name,
-              'the returned pair is not made of the given ids', b.site())
+    okk = bool(pairs) and all(all(1 in ctx.S.slice_operand(b, o).params for o in st['rv']['ops']) for bi, st, ls, fs in pairs)
+    out.append(('from-ids', 'T-CARRY', 'ok' if okk else 'bad', 'the returned pair is not made of the given ids', b.site()))
     # Ok exactly for one or two distinct ids
     exact = {n for n in ok_lens}
-    if exact == {1, 2}:
-        ctx.ok(R + '/lengths', 'T-TABLE', b.site(), lengths=sorted(exact))
+    if exact == {1, 2}: out.append(('lengths', 'T-TABLE', 'ok', '', b.site()))
     elif sh.unknown_tests and (exact - {1, 2}) and b.err_exits():
         # a test on ids that is not in the predicate table decides: the weaker clause "some test on ids separates Ok from Err" holds
-        ctx.undecided(R + '/lengths', 'T-TABLE', b.site(), 'length tests not recognised at %s; lengths reaching Ok under the recognised ones: %s' % ([b.site(x) for x in sorted(sh.unknown_tests)], sorted(exact)))
+        out.append(('lengths', 'T-TABLE', 'undecided', 'length tests not recognised at %s; lengths reaching Ok under the recognised ones: %s' % ([b.site(x) for x in sorted(sh.unknown_tests)], sorted(exact)), b.site()))
     else:
-        ctx.bad(R + '/lengths', 'T-TABLE', b.name, 'accepted lengths are %s, expected [1, 2]' % [('%d+' % n if n == 7 else n) for n in sorted(exact)], b.site())
-    ctx.check(bool(b.err_exits()), R + '/other-lengths-error', 'T-TABLE', b.name, 'no Err-exit for other lengths', b.site())
+        out.append(('lengths', 'T-TABLE', 'bad', 'accepted lengths are %s, expected [1, 2]' % [('%d+' % n if n == 7 else n) for n in sorted(exact)], b.site()))
+    out.append(('other-lengths-error', 'T-TABLE', 'ok' if b.err_exits() else 'bad', 'no Err-exit for other lengths', b.site()))
     # canonical order: (ids[i], ids[j]) with i <= j in the sorted vector, or an explicit comparison on the way
     bad = []; unres = []
     for bi, st, lens, facts in pairs:
@@ -917,12 +996,45 @@ def pair_rules(ctx):
         val = lambda p, n: p[1] if p[0] == 's' else n - 1 - p[1]
         by_index = all(val(A, n) <= val(B, n) for n in lens if n < 7)
         if not (by_index or (A, B) in facts or A == B): bad.append((bi, A, B, sorted(lens)))
-    if bad:
-        ctx.bad(R + '/ordered', 'T-BRANCHFX', b.name, 'pair built as (ids[%s], ids[%s]) for lengths %s without i <= j or a comparison' % (bad[0][1], bad[0][2], bad[0][3]), b.site(bad[0][0]))
-    elif unres:
-        ctx.undecided(R + '/ordered', 'T-BRANCHFX', b.site(unres[0]), 'pair operands are not recognisable as elements of ids (weaker clause /from-ids and /sorted hold)')
-    else:
-        ctx.ok(R + '/ordered', 'T-BRANCHFX', b.site(), pairs=len(pairs))
+    if bad: out.append(('ordered', 'T-BRANCHFX', 'bad', 'pair built as (ids[%s], ids[%s]) for lengths %s without i <= j or a comparison' % (bad[0][1], bad[0][2], bad[0][3]), b.site(bad[0][0])))
+    elif unres: out.append(('ordered', 'T-BRANCHFX', 'undecided', 'pair operands are not recognisable as elements of ids (weaker clauses /from-ids and /sorted hold)', b.site(unres[0])))
+    else: out.append(('ordered', 'T-BRANCHFX', 'ok', '', b.site()))
+    return out
+
+
+def pair_rules(ctx):
+    """the three conversions into BinaryIdPair: each one either implements the canonicalisation itself (clauses above,
+    relaxed by what its argument type guarantees) or hands a value derived from its argument to another conversion"""
+    R = 'C11.pair'
+    convs = []
+    for ty, short, ssorted, sdedup in SRC:
+        fb = ctx.method(R + ('/anchor' if short == 'Vec' else '/anchor/' + ty), 'sorted_ids::BinaryIdPair', 'try_from', trait='TryFrom', targs=[ty])
+        if fb is not None: convs.append((short, fb, ssorted, sdedup))
+    if not any(sh == 'Vec' for sh, _, _, _ in convs): return
+    def delegate_of(fb):
+        s = ctx.S.backslice(fb, [0])
+        for c in s.call_objs:
+            if re.search(CONV_RE, c.name) and c.name != fb.name and 1 in ctx.S.slice_operand(fb, c.args[0]).params: return c
+        return None
+    impl = [(short, fb, a, d) for short, fb, a, d in convs if delegate_of(fb) is None]
+    primary = impl[0][0] if impl else None
+    for short, fb, ssorted, sdedup in convs:
+        dc = delegate_of(fb)
+        if dc is not None:
+            # a cycle of delegations implements nothing: some conversion must do the work
+            ctx.check(bool(impl), R + '/delegates/' + short, 'T-DELEG', fb.name, 'the conversions only delegate to each other', fb.site(dc.bb))
+            continue
+        clauses = canonical_pair_clauses(ctx, fb, ssorted, sdedup)
+        if short == primary:
+            for leaf, tmpl, verdict, detail, site in clauses:
+                if verdict == 'undecided': ctx.undecided(R + '/' + leaf, tmpl, site, detail)
+                else: ctx.check(verdict == 'ok', R + '/' + leaf, tmpl, fb.name, detail, site)
+        else:
+            badc = [(leaf, detail) for leaf, tmpl, verdict, detail, site in clauses if verdict == 'bad']
+            und = [(leaf, detail) for leaf, tmpl, verdict, detail, site in clauses if verdict == 'undecided']
+            if badc: ctx.bad(R + '/delegates/' + short, 'T-DELEG', fb.name, 'neither delegates to a canonical conversion nor is canonical itself: ' + '; '.join('%s: %s' % x for x in badc), fb.site())
+            elif und: ctx.undecided(R + '/delegates/' + short, 'T-DELEG', fb.site(), '; '.join('%s: %s' % x for x in und))
+            else: ctx.ok(R + '/delegates/' + short, 'T-DELEG', fb.site(), how='canonical by itself')
     # crate-wide: the pair / set keys are only constructed inside their own impls
     outside = []
     for fb in ctx.F.bodies.values():
@@ -931,12 +1043,6 @@ def pair_rules(ctx):
                 if not re.search(r'sorted_ids::Binary(Ids|IdPair)', fb.hdr.get('self') or ''):
                     outside.append('%s@%s' % (fb.name, fb.site(bi)))
     ctx.check(not outside, R + '/constructed-only-in-impls', 'T-CARRY', 'crate', 'keys constructed outside their impls: %s' % outside[:4])
-    for src in ('sorted_ids::SortedIds', 'sorted_ids::BinaryIds'):
-        fb = ctx.method(R + '/anchor/' + src, 'sorted_ids::BinaryIdPair', 'try_from', trait='TryFrom', targs=[src])
-        if fb is not None:
-            s = ctx.S.backslice(fb, [0])
-            ctx.check(s.has_call(r'BinaryIdPair as std::convert::TryFrom<std::vec::Vec<u64>>>::try_from') and 1 in s.params, R + '/delegates/' + src.split('::')[-1], 'T-DELEG', fb.name,
-                      'does not delegate to TryFrom<Vec<u64>>', fb.site())
     fb = ctx.method(R + '/anchor/BinaryIds-from', 'sorted_ids::BinaryIds', 'from', trait='From', targs=['sorted_ids::SortedIds'])
     if fb is not None:
         s = ctx.S.backslice(fb, [0])
